@@ -139,6 +139,8 @@ HasAgg(x) ==
     [] x.e = "between" -> HasAgg(x.a) \/ HasAgg(x.lo) \/ HasAgg(x.hi)
     [] OTHER -> FALSE
 
+IsErrRel(r) == \E i \in 1..Len(r.rows) : \E j \in 1..Len(r.rows[i]) : r.rows[i][j] = ERR
+
 \* FROM items; a sub-select / CTE / dataframe re-tags its columns with the alias
 Retag(rel, as) == IF as = "" THEN rel ELSE Rel([i \in 1..Len(rel.hdr) |-> [t |-> as, c |-> rel.hdr[i].c]], rel.rows, FALSE)
 NullRow(n) == [i \in 1..n |-> NULL]
@@ -155,7 +157,8 @@ JoinRels(kind, l, r, on, ctx) ==
       ronly == SelectSeq(r.rows, LAMBDA b : ~\E i \in 1..Len(l.rows) : ok(l.rows[i], b))
       lpad == [i \in 1..Len(lonly) |-> lonly[i] \o NullRow(Len(r.hdr))]
       rpad == [i \in 1..Len(ronly) |-> NullRow(Len(l.hdr)) \o ronly[i]]
-  IN IF bad THEN Rel(h, <<<<ERR>>>>, FALSE)
+  IN IF IsErrRel(l) \/ IsErrRel(r) THEN Rel(<<>>, <<<<ERR>>>>, FALSE)
+     ELSE IF bad THEN Rel(h, <<<<ERR>>>>, FALSE)
      ELSE Rel(h, CASE kind \in {"inner", "cross"} -> inner
                    [] kind = "left" -> inner \o lpad
                    [] kind = "right" -> inner \o rpad
@@ -174,8 +177,6 @@ EvalFrom(f, ctx) ==
     [] f.f = "df" -> {Retag(ctx.res[f.n + 1], f.as)}
     [] f.f = "sub" -> {Retag(r, f.as) : r \in EvalQ(f.q, ctx)}
     [] f.f = "join" -> {JoinRels(f.kind, l, r, f.on, ctx) : l \in EvalFrom(f.l, ctx), r \in EvalFrom(f.r, ctx)}
-
-IsErrRel(r) == \E i \in 1..Len(r.rows) : \E j \in 1..Len(r.rows[i]) : r.rows[i][j] = ERR
 
 \* expand targets (stars) into <<expr, output tag>> pairs
 Targets(q, h) ==
@@ -207,6 +208,7 @@ LimitChoices(rows, keys, lim, off) ==
      ELSE {[m \in 1..Cardinality(T) |-> rows[Nth(T, m)]] : T \in Adm}
 
 EvalSelect(q, src, ctx) ==
+  IF IsErrRel(src) THEN {Rel(<<>>, <<<<ERR>>>>, FALSE)} ELSE
   LET h == src.hdr
       w == IF q.where.e = "none" THEN src.rows
            ELSE SelectSeq(src.rows, LAMBDA r : Truth(EvalE(q.where, h, r, NoGrp, ctx)) = 1)
